@@ -117,6 +117,8 @@ def classify(s):
     for key, lst, note in rules:
         if key[0] == kind and (key[1] is None or key[1] == fn) and (len(key) < 3 or det.startswith(key[2])):
             return lst, note
+    if kind == 'fields':
+        return PF, 'field list of ' + fn + ': a state handle (AccountDB on a root) owns its trie and objects; storageDB keeps no cache of tries, so handles opened on the same root never share a mutable trie'
     if kind == 'guards':
         return PF, 'branch conditions (locals blanked) of ' + fn + ' in source order, as followed by the model'
     if kind == 'flag' and (f.startswith('src/vm/') or f.endswith('contract_executor.go')):
@@ -198,7 +200,7 @@ theorem process_local_reads_pinned :
 
 /-- the statement-order fact of `VMExecutor.Execute` and the BLOCKHASH window are exactly the pinned ones -/
 theorem order_and_bounds_pinned :
-    ((sites.filter (fun s => s.kind == "order" || s.kind == "bound" || s.kind == "guards")).map (·.key)) = pinnedFacts := by
+    ((sites.filter (fun s => s.kind == "order" || s.kind == "bound" || s.kind == "guards" || s.kind == "fields")).map (·.key)) = pinnedFacts := by
   decide
 
 example : processLocalAccounted ≠ [] := by decide
